@@ -499,12 +499,12 @@ func (c *Conn) stopTimers() {
 	}
 }
 
-func (c *Conn) LocalAddr() net.Addr            { return c.lna }
-func (c *Conn) RemoteAddr() net.Addr           { return c.rna }
-func (c *Conn) LocalMultiaddr() ma.Multiaddr   { return c.laddr }
-func (c *Conn) RemoteMultiaddr() ma.Multiaddr  { return c.raddr }
-func (c *Conn) String() string                 { return "memnet.Conn(" + c.name + ")" }
-func (c *Conn) SetDeadline(t time.Time) error  { return c.setDL(t, true, true) }
+func (c *Conn) LocalAddr() net.Addr                { return c.lna }
+func (c *Conn) RemoteAddr() net.Addr               { return c.rna }
+func (c *Conn) LocalMultiaddr() ma.Multiaddr       { return c.laddr }
+func (c *Conn) RemoteMultiaddr() ma.Multiaddr      { return c.raddr }
+func (c *Conn) String() string                     { return "memnet.Conn(" + c.name + ")" }
+func (c *Conn) SetDeadline(t time.Time) error      { return c.setDL(t, true, true) }
 func (c *Conn) SetReadDeadline(t time.Time) error  { return c.setDL(t, true, false) }
 func (c *Conn) SetWriteDeadline(t time.Time) error { return c.setDL(t, false, true) }
 
